@@ -33,8 +33,8 @@ ASSUMPTIONS = [
     "unordered mode: results of a batch are delivered together, batches in completion (callback) order",
 ]
 SHARDS = {"quick": 12, "thorough": 14}
-FLOORS = {"quick": {"promptness_checks": 3000, "calls": 600, "closes": 100, "drops": 60, "overlapping_calls_rejected": 60, "real_promptness_checks": 60},
-          "thorough": {"promptness_checks": 60000, "calls": 12000, "closes": 2000, "drops": 1200, "overlapping_calls_rejected": 1200, "real_promptness_checks": 900}}
+FLOORS = {"quick": {"promptness_checks": 3000, "calls": 600, "closes": 100, "drops": 60, "overlapping_calls_rejected": 60, "real_promptness_checks": 60, "completions_during_abort": 100},
+          "thorough": {"promptness_checks": 60000, "calls": 12000, "closes": 2000, "drops": 1200, "overlapping_calls_rejected": 1200, "real_promptness_checks": 900, "completions_during_abort": 2000}}
 
 DUE_WAIT = 5.0
 
@@ -373,6 +373,15 @@ def run_scripted(case, ctx):
             done.set()
 
         pl = None   # the helper objects hold references to the generator
+        if rng.random() < 0.5:
+            # one of the in-flight batches completes (successfully) while the backend is being aborted
+            def finish_one(backend):
+                pend = backend.pending_snapshot()
+                if pend:
+                    ok = backend.complete(rng.choice(pend), thread=True, wait=True, timeout=3)
+                    ctx.count("completions_during_abort" if ok else "completions_during_abort_callback_blocked")
+
+            be.during_abort = finish_one
         ta = threading.Thread(target=abandon, daemon=True) if plan2 == "close" else None
         if ta is not None and rng.random() < 0.6:
             abandon()           # close() in the consumer's own thread (the usual case)
@@ -403,6 +412,7 @@ def run_scripted(case, ctx):
         pulls_after = sum(1 for e in ev if e["k"] == "pull") - pulled_before
         if subs_after or pulls_after:
             ctx.violation("dispatch-after-abandon", f"after {plan2}: {len(subs_after)} batches submitted, {pulls_after} items pulled; {desc}", desc)
+        be.during_abort = None
         ctx.sig((cfg, plan, N, stop_after, order))
         return True
 
